@@ -108,6 +108,11 @@ pub struct Tuple {
     pub overlap: Option<(usize, String)>,
     /// every stage (and `run`) starts in a working directory that was deleted under it; all paths it is given are absolute
     pub deleted_cwd: bool,
+    /// how the files of the pipeline are spelled and what sits behind the names: 0 = plain; 1 = the `-o FILE` names carry an
+    /// upper-case extension (`TREE.JSON` is not used — the format is chosen by it — but `IMAGE.BC` is); 2 = the `-o FILE` paths go
+    /// through `lnk/..` where `lnk` is a symbolic link to a directory elsewhere; 3 = every input file is a symbolic link to a file
+    /// with another base name and no extension (a content-addressed store)
+    pub path_style: u8,
 }
 
 pub const INPUT_NAMES: &[&str] = &["prog.fml", "prog.fml", "job.1.fml", "my prog.fml", "prog.v2.final.fml", "прог.fml", "noext", "a.b", "UPPER.FML", "x.json.fml", "trailing.dot..fml"];
@@ -118,7 +123,7 @@ impl Tuple {
                "compile_flag": self.compile_flag, "compile_stdin": self.compile_stdin, "compile_out": self.compile_out.name(), "exec_stdin": self.exec_stdin,
                "profile": self.profile.name(), "plans": self.plans, "wrapper": self.wrapper, "input_name": self.input_name, "stale": self.stale, "hash_seed": self.hash_seed, "hard_stage": self.hard_stage, "wrapper_stages": self.wrapper_stages, "guest_stdout_fault": self.guest_stdout_fault,
                "crash_before": self.crash_before.as_ref().map(|(s, p)| json!([s, p])), "live": self.live,
-               "overlap": self.overlap.as_ref().map(|(s, p)| json!([s, p])), "deleted_cwd": self.deleted_cwd})
+               "overlap": self.overlap.as_ref().map(|(s, p)| json!([s, p])), "deleted_cwd": self.deleted_cwd, "path_style": self.path_style})
     }
     pub fn from_json(v: &Value) -> Option<Tuple> {
         let plans = v.get("plans")?.as_array()?;
@@ -144,6 +149,7 @@ impl Tuple {
             live: v.get("live").and_then(|x| x.as_bool()).unwrap_or(false),
             overlap: v.get("overlap").and_then(|x| x.as_array()).and_then(|a| Some((a.get(0)?.as_u64()? as usize, a.get(1)?.as_str()?.to_string()))),
             deleted_cwd: v.get("deleted_cwd").and_then(|x| x.as_bool()).unwrap_or(false),
+            path_style: v.get("path_style").and_then(|x| x.as_u64()).unwrap_or(0) as u8,
         })
     }
 
@@ -188,13 +194,14 @@ impl Tuple {
             live: false,
             overlap: None,
             deleted_cwd: rng.below(14) == 0,
+            path_style: match rng.below(10) { 0 => 1, 1 => 2, 2 => 3, _ => 0 },
         }
     }
 
     pub fn plain(format: Fmt, profile: Profile) -> Tuple {
         Tuple { format, parse_flag: Some(format.ext().to_string()), parse_stdin: false, parse_out: Chan::OFile, compile_flag: None, compile_stdin: false,
                 compile_out: Chan::OFile, exec_stdin: false, profile, plans: [String::new(), String::new(), String::new()], wrapper: false,
-                input_name: "prog.fml".into(), stale: false, hash_seed: 11, hard_stage: None, wrapper_stages: false, guest_stdout_fault: String::new(), crash_before: None, live: false, overlap: None, deleted_cwd: false }
+                input_name: "prog.fml".into(), stale: false, hash_seed: 11, hard_stage: None, wrapper_stages: false, guest_stdout_fault: String::new(), crash_before: None, live: false, overlap: None, deleted_cwd: false, path_style: 0 }
     }
 }
 
@@ -354,8 +361,20 @@ fn crashed_predecessor(t: &Tuple, stage: usize, dir: &std::path::Path, c: &Child
 
 pub fn run_staged(source: &str, t: &Tuple) -> Staged {
     let dir = scratch_dir();
+    if t.path_style == 2 {
+        let _ = std::fs::create_dir_all(dir.join("elsewhere/deep"));
+        let _ = std::os::unix::fs::symlink("elsewhere/deep", dir.join("lnk"));
+    }
+    let pre = if t.path_style == 2 && !t.wrapper { "lnk/../" } else { "" };
+    let image_name: String = format!("{}{}", pre, if t.path_style == 1 && !t.wrapper { "IMAGE.BC" } else { "image.bc" });
     let input_name: &str = if t.wrapper { "prog.fml" } else { t.input_name.as_str() };
-    std::fs::write(dir.join(input_name), source).unwrap();
+    if t.path_style == 3 && !t.wrapper {
+        let _ = std::fs::create_dir_all(dir.join("store"));
+        std::fs::write(dir.join("store/src-77aa01"), source).unwrap();
+        let _ = std::os::unix::fs::symlink("store/src-77aa01", dir.join(input_name));
+    } else {
+        std::fs::write(dir.join(input_name), source).unwrap();
+    }
     let mut st = Staged { ast_bytes: None, bc_bytes: None, exec: None, failed: None, children: 0, faults_fired: 0, budget_exceeded: false, calls: [[0; 4]; 3], hard_fired: [0; 3], exits: [None, None, None], crashes_fired: 0, overlaps_run: 0 };
     let ext = t.format.ext();
     if t.wrapper {
@@ -393,10 +412,10 @@ pub fn run_staged(source: &str, t: &Tuple) -> Staged {
     }
     let ast_location: Option<String> = match t.parse_out {
         Chan::OFile => {
-            if t.stale { std::fs::write(dir.join(format!("tree.{}", ext)), "stale ".repeat(source.len() * 4 + 200)).unwrap(); }
+            if t.stale { std::fs::write(dir.join(format!("{}tree.{}", pre, ext)), "stale ".repeat(source.len() * 4 + 200)).unwrap(); }
             args.push("-o".into());
-            args.push(format!("tree.{}", ext));
-            Some(format!("tree.{}", ext))
+            args.push(format!("{}tree.{}", pre, ext));
+            Some(format!("{}tree.{}", pre, ext))
         }
         Chan::ODir => {
             std::fs::create_dir_all(dir.join("astdir")).unwrap();
@@ -466,15 +485,20 @@ pub fn run_staged(source: &str, t: &Tuple) -> Staged {
             p
         }
     };
+    if t.path_style == 3 && !t.compile_stdin && !ast_file.contains('/') {
+        // the AST file moves into the store; its name stays behind as a symbolic link
+        let _ = std::fs::create_dir_all(dir.join("store"));
+        if std::fs::rename(dir.join(&ast_file), dir.join("store/obj-4f1d9a2c")).is_ok() { let _ = std::os::unix::fs::symlink("store/obj-4f1d9a2c", dir.join(&ast_file)); }
+    }
     let mut args: Vec<String> = vec!["compile".into()];
     if !t.compile_stdin { args.push(ast_file.clone()); }
     if let Some(f) = &t.compile_flag { args.push("--input-format".into()); args.push(f.clone()); }
     let bc_location: Option<String> = match t.compile_out {
         Chan::OFile => {
-            if t.stale { std::fs::write(dir.join("image.bc"), vec![0xEEu8; source.len() * 8 + 4096]).unwrap(); }
+            if t.stale { std::fs::write(dir.join(&image_name), vec![0xEEu8; source.len() * 8 + 4096]).unwrap(); }
             args.push("-o".into());
-            args.push("image.bc".into());
-            Some("image.bc".into())
+            args.push(image_name.clone());
+            Some(image_name.clone())
         }
         Chan::ODir => {
             std::fs::create_dir_all(dir.join("bcdir")).unwrap();
@@ -909,6 +933,7 @@ pub fn minimise(case: &Case, oracle: &str) -> Case {
     try_field!(crash_before);
     try_field!(overlap);
     try_field!(deleted_cwd);
+    try_field!(path_style);
     try_field!(guest_stdout_fault);
     try_field!(exec_stdin);
     try_field!(compile_out);
@@ -998,6 +1023,12 @@ fn exercise(name: &str, spec: &ProgSpec, rng: &mut Rng, n_tuples: usize, n_hard:
         for f in Fmt::ALL { tuples.push(Tuple::random(rng, f)); }
     }
     while tuples.len() < n_tuples { let f = *rng.pick(&Fmt::ALL); tuples.push(Tuple::random(rng, f)); }
+    if name.starts_with("scale:") && source.len() > 20_000 {
+        // documents of hundreds of kilobytes into something that is not a regular file
+        let mut t = Tuple::plain(*rng.pick(&Fmt::ALL), if rng.coin() { Profile::Debug } else { Profile::Release });
+        t.parse_out = Chan::DevStdout; t.compile_stdin = true; t.compile_flag = t.parse_flag.clone(); t.compile_out = Chan::DevStdout; t.exec_stdin = true;
+        tuples.push(t);
+    }
     if !name.starts_with("boundary:") && rng.below(4) == 0 {
         let mut t = Tuple::plain(Fmt::Json, if rng.coin() { Profile::Debug } else { Profile::Release });
         t.wrapper = true;
